@@ -4,7 +4,7 @@ from ..core import PROVED, REFUTED, UNKNOWN, MISSING
 from ..poly import Poly, prove
 from ..ownership import owner_adts, local_adt, find_in
 from ..models import verify_models
-from ..rules import vstr, fstr, transfers, tiling, check_const_transmute, peq
+from ..rules import vstr, fstr, transfers, tiling, check_const_transmute, peq, pipe_len
 from ..typestate import Classifier, check_closure_protocol
 from ..absint import State
 from ..tys import tstr, strip_wrappers
@@ -251,6 +251,10 @@ def check_finishers(ctx, cfg):
                 for e in a.calls:
                     if e.key in ("IntrusiveArrayBuilder<$0,$1>::extend", "ArrayBuilder<$0,$1>::extend") and a.dominates(e.bb, c.bb) and e.args[0][0] == "P" and e.args[0][1] == ("local", loc):
                         src = e.args[1]
+                        oN_ = a.tenv.length([x for x in a.local_ty(loc)["args"] if x.get("k") != "region"][-1])
+                        pl = pipe_len(a, src)
+                        if pl is not None and pl == oN_:
+                            evidence = "filled by extend() from a pipeline that yields exactly N items (%s); Zip stores min(N, N) = N items" % vstr(src)[:120]
                         if isinstance(src, tuple) and len(src) == 4 and src[:3] == ("V", "iter", "into_iter"):
                             vecv = src[3]
                             for l in a.calls:
